@@ -282,7 +282,7 @@ class Model:
                 if isinstance(it, bytes):
                     if gs.font is None:
                         continue
-                    f = fonts[gs.font]
+                    f = gs.font
                     for c in it:
                         w0 = Fr(f["widths"].get(c, 0), 1000)
                         adv = w0 * gs.fs * gs.Th
@@ -297,7 +297,8 @@ class Model:
         for x in ops:
             k = x[0]
             if k == "Tf":
-                gs.font, gs.fs = x[1], Fr(x[2])
+                # the text state holds the font *object* selected in the resources current at Tf time
+                gs.font, gs.fs = fonts[x[1]], Fr(x[2])
             elif k == "Tc":
                 gs.Tc = Fr(x[1])
             elif k == "Tw":
